@@ -205,6 +205,22 @@ Definition ctor_outcome (max : nat) (on_miss_ok : bool) : option exn :=
 Definition init_cache (c : cfg) (init : list (K * V)) : cache * res unit :=
   setitems c empty_cache init.
 
+(* c_i.update(c_j), i <> j: `for k in E.keys(): setitem(k, E[k])` where E[k] is
+   the other cache's __getitem__ *)
+Fixpoint upd_from (c : cfg) (mi mj : cache) (ks : list K) : cache * cache * res unit :=
+  match ks with
+  | [] => (mi, mj, Ok tt)
+  | k :: rest =>
+      match getitem c mj k with
+      | (mj', Ok v) =>
+          match setitem c mi k v with
+          | (mi', Ok _) => upd_from c mi' mj' rest
+          | (mi', Raise e) => (mi', mj', Raise e)
+          end
+      | (mj', Raise e) => (mi, mj', Raise e)
+      end
+  end.
+
 (* ---- the heap of caches of one history -------------------------------------- *)
 (* returns the new heap, the index of the cache the observation is about, the outcome *)
 Definition hstep (c : cfg) (h : list cache) (o : hop) : list cache * nat * res outv :=
@@ -230,6 +246,17 @@ Definition hstep (c : cfg) (h : list cache) (o : hop) : list cache * nat * res o
           (h, i, Ok (OBool (if Nat.eqb i j then true else cache_eq m (store m2))))
       | _, _ => (h, i, Raise (OtherExn 1))
       end
+  | UpdateFrom i j =>
+      match nth_error h i, nth_error h j with
+      | Some mi, Some mj =>
+          let ks := d_keys (store mj) in                (* E.keys(): the storage order of the source *)
+          if Nat.eqb i j then (h, i, Ok (OKeys ks))     (* `if E is self: pass` *)
+          else match upd_from c mi mj ks with
+               | (mi', mj', Ok _) => (upd_nth i mi' (upd_nth j mj' h), i, Ok (OKeys ks))
+               | (mi', mj', Raise e) => (upd_nth i mi' (upd_nth j mj' h), i, Raise e)
+               end
+      | _, _ => (h, i, Raise (OtherExn 1))
+      end
   end.
 
 (* the model's observation of cache i after a step; calls_before = the call log
@@ -241,7 +268,7 @@ Definition observe (calls_before : list K) (m : cache) (out : res outv) : obs :=
 
 Definition calls_before_of (h : list cache) (o : hop) : list K :=
   match o with
-  | On i _ | EqCache i _ => match nth_error h i with Some m => calls m | None => [] end
+  | On i _ | EqCache i _ | UpdateFrom i _ => match nth_error h i with Some m => calls m | None => [] end
   | Copy _ => []
   end.
 
@@ -269,7 +296,7 @@ Definition run_heap (c : cfg) (init : list (K * V)) (ops : list hop) : list cach
 Definition valid_hop (n : nat) (o : hop) : bool :=
   match o with
   | On i _ | Copy i => (i <? n)%nat
-  | EqCache i j => (i <? n)%nat && (j <? n)%nat
+  | EqCache i j | UpdateFrom i j => (i <? n)%nat && (j <? n)%nat
   end.
 
 (* a model observation against an implementation observation: everything equal;
